@@ -16,11 +16,14 @@ def stateful_shapes():
             shapes.mk_union([Vec(P("int32")), Map(P("string"), P("int32"))]), Arr(P("int32"), None), Arr(P("float32"), 2),
             Opt(Vec(P("int32"))), Vec(Vec(P("int32"))), Vec(N("RS")), N("G", P("int32")), P("string"), Opt(N("RS")),
             Map(P("string"), Vec(P("int32"))), shapes.mk_union([P("int32"), P("string"), N("RS")], null=True), Vec(P("float64")),
-            N("RT3"), Vec(N("RT3")), Opt(P("string"))]
+            N("RT3"), Vec(N("RT3")), Opt(P("string")),
+            # flags and enums (NDJSON reads flags by OR-ing symbols into the destination), also inside records / vectors / optionals
+            N("F"), N("RF"), Vec(N("F")), Opt(N("F")), N("E")]
 
 
 def package():
-    defs = [d for d in shapes.leaf_defs() if d.name in ("RS", "G", "RT3")]
+    defs = [d for d in shapes.leaf_defs() if d.name in ("RS", "G", "RT3", "F", "E")]
+    defs.append(Record("RF", [("k", N("F")), ("e", N("E")), ("t", P("int32"))]))
     defs.append(Record("RM", [("m", Map(P("string"), P("int32"))), ("o", Opt(P("string"))), ("v", Vec(P("int32"))),
                               ("u", Union(P("int32"), P("string"))), ("n", Union(None, P("int32"), P("float32")))]))
     protos = [Protocol("T%d" % i, [("items", Stream(t)), ("last", P("int32"))]) for i, t in enumerate(stateful_shapes())]
